@@ -55,3 +55,9 @@ func (w *Wallet) VerifConnectBlock(b wtxmgr.BlockMeta) error {
 		return w.connectBlock(tx, b)
 	})
 }
+
+// VerifMakeInputSource returns the input source automatic coin selection
+// hands to txauthor (makeInputSource) for an already arranged coin list.
+func VerifMakeInputSource(eligible []Coin) txauthor.InputSource {
+	return makeInputSource(eligible)
+}
